@@ -289,23 +289,24 @@ Fixpoint built_over (bo : list (nat * option nat)) (b : nat) : option (option na
 (* ---- the verbs at / do / be: under which context (nabe) an act is filed.  Contexts are numbered 0 = native and
    kind_idx k + 1 for the act lists (so 5 = endo).  at(ctx) sets the current context, every bx resets it to native;
    do / be file their act under the explicit nabe= when given, else under the current context, and native means the
-   act class's own default, endo ---- *)
+   act class's own default context [dflt] (endo for Act and Beact, redo for Count, exdo for Discount, enmark /
+   remark for the marks, ...) ---- *)
 Definition NATIVE : nat := 0.
 Definition ENDO : nat := 5.
-Definition verb_ctx (explicit : option nat) (at_ctx : nat) : nat :=
+Definition verb_ctx (explicit : option nat) (at_ctx dflt : nat) : nat :=
   let n := match explicit with Some e => e | None => at_ctx end in
-  if Nat.eqb n NATIVE then ENDO else n.
+  if Nat.eqb n NATIVE then dflt else n.
 
 Inductive stmt :=
 | SAt (ctx : nat)
-| SAct (explicit : option nat) (k j : nat).      (* do / be of the act (kind k, index j) *)
+| SAct (explicit : option nat) (dflt : nat) (k j : nat).   (* do / be of the act (kind k, index j), class default dflt *)
 
 (* the statements of one box -> (context filed under, k, j) in filing order *)
 Fixpoint file_from (at_ctx : nat) (ss : list stmt) : list (nat * (nat * nat)) :=
   match ss with
   | [] => []
   | SAt c :: ss' => file_from c ss'
-  | SAct e k j :: ss' => (verb_ctx e at_ctx, (k, j)) :: file_from at_ctx ss'
+  | SAct e d k j :: ss' => (verb_ctx e at_ctx d, (k, j)) :: file_from at_ctx ss'
   end.
 Definition file_acts (ss : list stmt) : list (nat * (nat * nat)) := file_from NATIVE ss.
 Definition filed_under (fl : list (nat * (nat * nat))) (ctx : nat) : list (nat * nat) :=
@@ -317,7 +318,9 @@ Record case := { c_forest : forest;
                  c_decl : list (nat * omode);                       (* the bx declarations, [] = boxes linked directly *)
                  c_built : list (nat * option nat * list nat);      (* observed per declared box: over, unders *)
                  c_stmts : list (list stmt);                        (* per box: its at / do / be statements *)
-                 c_filed : list (list (nat * list (nat * nat))) }.  (* observed per box: (context, acts in that list) *)
+                 c_filed : list (list (nat * list (nat * nat)));    (* observed per box: (context, acts in that list) *)
+                 c_rstmts : list (list stmt);                       (* per box: do(<registered class name>) statements, built only *)
+                 c_rfiled : list (list (nat * list (nat * nat))) }.
 
 (* the structure bx built is the model's fold, and it is the forest the case runs on *)
 Definition check_built (c : case) : bool :=
@@ -331,11 +334,14 @@ Definition check_built (c : case) : bool :=
 (* the act lists the verbs built are the model's filing, and every act sits in the list of its own kind, in index
    order, as many as the forest says *)
 Definition pair_nat_eqb (x y : nat * nat) : bool := Nat.eqb (fst x) (fst y) && Nat.eqb (snd x) (snd y).
-Definition check_filed (c : case) : bool :=
-  Nat.eqb (length (c_stmts c)) (length (c_filed c)) &&
+Definition filing_agrees (ss : list (list stmt)) (obs : list (list (nat * list (nat * nat)))) : bool :=
+  Nat.eqb (length ss) (length obs) &&
   forallb (fun so => forallb (fun co => list_eqb pair_nat_eqb (filed_under (file_acts (fst so)) (fst co)) (snd co))
                              (snd so))
-          (combine (c_stmts c) (c_filed c)) &&
+          (combine ss obs).
+
+Definition check_filed (c : case) : bool :=
+  filing_agrees (c_stmts c) (c_filed c) && filing_agrees (c_rstmts c) (c_rfiled c) &&
   forallb (fun bs =>
              let b := fst bs in
              forallb (fun k => list_eqb pair_nat_eqb (filed_under (file_acts (snd bs)) (S k))
